@@ -14,7 +14,7 @@ from . import c06
 
 ID = 'C17'
 LEVEL = 'exploration'
-RUNS = {'quick': 1000}
+RUNS = {'quick': 4000}
 BUDGET_S = {'thorough': 600}
 CMD_WEIGHTS = {'filter': 4, 'breakpoint': 3, 'list': 5, 'connection': 3, 'other': 4}
 SGR = re.compile('\x1b\\[[0-9;]*m')      # independent of core.util.no_color
